@@ -303,6 +303,10 @@ def compare(prop, ops, impl, model, nontrivial=None):
         res["evaluations"] += 1
         if mo.startswith("skip"):
             res["skipped"] += 1
+            # outside the model's domain — but when the specification stream still answers for this input the
+            # implementation is held to it (a regenerated table the model cannot interpret must not hide a violation)
+            if sp is not None and not sp.startswith("unspecified") and not sp.startswith("skip") and im != sp:
+                res["violations"].append({"i": i, "op": ops[i], "impl": im, "model": mo, "spec": sp})
             continue
         cls = im.split(":")[0]
         res["outcomes"][cls] = res["outcomes"].get(cls, 0) + 1
